@@ -30,7 +30,7 @@ CLAIMS = {
     "C11": ("lock-state dataflow (balance, contracts, guarded-by, policy); must-non-nil forward dataflow for lazily created maps; linear Recv dataflow; path queries for the ongoing-call bracket and resolve-once",
             "necessary conditions of once-only, deadlock-free pipelining in answer.go, exhaustive over CFG paths; not delivery order or exactly-once under interleavings",
             "trusts x/tools v0.29.0; lock identity per class (two Promise.mu may be held by design)", "DESIGN.md 3 C11"),
-    "C12": ("lock-state dataflow incl. the logical lock Server.starting; path queries for admission-after-drain-test and slot release; SSA guards for close(drain)/close(full); linear Recv dataflow",
+    "C12": ("lock-state dataflow incl. the logical lock Server.starting; path queries for admission-after-drain-test and slot release; SSA guards for close(drain)/close(full); linear Recv dataflow; SSA index agreement between the base index handed out for a queued call (queueCaller.basis) and the index fulfill stores its result at",
             "necessary conditions of ordered, capped, exactly-once local delivery in package server, exhaustive over CFG paths; not ordering or the cap as numeric invariants over timings",
             "trusts x/tools v0.29.0; lock identity per class", "DESIGN.md 3 C12"),
     "C03": ("abstract interpretation of the pointer-word decoders over a per-bit provenance domain, compared with the encoding specification's field table; normal forms (loop-free SSA paths) of the resolution code; anchor lemmas (call + argument + dominating atoms)",
